@@ -35,6 +35,10 @@ inline std::atomic<Callback> callback{nullptr};
 // non-zero: Zobrist tables are filled from mt19937_64(seed) instead of random_device
 inline std::atomic<uint64_t> zobrist_seed{0};
 
+// non-zero (with zobrist_seed): only these bits of every Zobrist key carry
+// entropy, the other bits are zero in all keys
+inline std::atomic<uint64_t> zobrist_mask{0};
+
 // true: the search reads virtual_elapsed_ms instead of the wall clock
 inline std::atomic<bool> virtual_clock{false};
 inline std::atomic<int64_t> virtual_elapsed_ms{0};
